@@ -114,6 +114,21 @@ pub fn check_cancel(sc: &Scenario, tr: &Trace) -> Result<&'static str, Fail> {
         }
         return Ok("cancel-not-while-active");
     }
+    // (0) a cancelled sender stops transmitting the file: after the request (plus what was already in the transport pipeline)
+    // no Metadata or file data leaves it - data sent after the cancel could even complete the delivery that was cancelled
+    if who == p.from {
+        if let Some(d) = tr
+            .emitted(who, peer)
+            .iter()
+            .find(|d| d.t > t_cancel + 2 * sc.tau_ms + 2 && matches!(kind_of(&d.pdu), Kind::FileData | Kind::Metadata))
+        {
+            return Err(fail(
+                tr,
+                "cancelled-sender-keeps-sending",
+                format!("cancel issued at the sender at {t_cancel} ms, but it put a {:?} PDU on the link at {} ms", kind_of(&d.pdu), d.t),
+            ));
+        }
+    }
     // (1) the cancelling entity
     let b = bound_ms(sc, who).max(bound_ms(sc, peer));
     let last_stim_who = tr.deliveries.iter().filter(|d| d.1 == who).map(|d| d.0).max().unwrap_or(0).max(t_cancel);
@@ -263,7 +278,7 @@ pub fn run(ctx: &mut Ctx) {
     ctx.rule = "both modes x closure x 2 NAK procedures x sizes {0,100} (thorough {0,33,100,200}); Cancel at the sender or the receiver triggered when the link sees datagram k of \
 direction 0->1 or 1->0, for every k of the baseline exchange, with 0 or 1 ms delay, and at time 0 (exhaustive); each such scenario again with every single datagram emitted after the cancel \
 dropped (learnt from the loss-free cancel run: the cancel handshake EOF(cancel)/ACK/Finished/ACK and in-flight data), and with a blackout of both directions / of the direction towards the \
-canceller starting 0 or 5 ms after the cancel; proptest: cancel + random faults. Non-trivial = the cancel was processed while the transaction was active at that entity; distinct by scenario."
+canceller starting 0 or 5 ms after the cancel; the same cancel positions over the exchange with one first-pass datagram lost (cancel while a NAK exchange repairs the loss; acknowledged mode); proptest: cancel + random faults. Non-trivial = the cancel was processed while the transaction was active at that entity; distinct by scenario."
         .into();
     ctx.assumptions = vec![
         "the CancelReceived condition is required at both users only when no datagram was lost after the cancel, no Finished indication preceded it and the mode lets the peer hear of it".into(),
@@ -313,6 +328,33 @@ canceller starting 0 or 5 ms after the cancel; proptest: cancel + random faults.
         }
     }
     ctx.section = "cancel-at-every-ordinal".into();
+    ctx.drive_list(&part, cases, true);
+
+    // cancel while a loss is being repaired: one datagram of the first pass (Metadata or a data segment) is lost, so that a NAK
+    // exchange is under way, and the cancel comes at every datagram of the exchange as it runs with that loss
+    let mut cases = vec![];
+    for sc in bs.iter().filter(|sc| !sc.puts[0].unack && sc.puts[0].file.as_ref().map(|f| f.size >= 100).unwrap_or(false)) {
+        let (a0, _) = baseline_counts(sc);
+        for lost in 0..a0.saturating_sub(1) {
+            let mut f = sc.clone();
+            f.faults.push(Fault { from: 0, to: 1, ordinal: lost, kind: FaultKind::Drop });
+            let tr = run_scenario(&f);
+            let (a, b) = (tr.emitted(0, 1).len() as u32, tr.emitted(1, 0).len() as u32);
+            for at in [0usize, 1] {
+                for k in 0..a {
+                    for d in [0u64, 1] {
+                        cases.push(C10Case { sc: with_cancel(&f, at, Trigger::OnOrdinal { from: 0, to: 1, ordinal: k, delay_ms: d }) });
+                    }
+                }
+                for k in 0..b {
+                    for d in [0u64, 1] {
+                        cases.push(C10Case { sc: with_cancel(&f, at, Trigger::OnOrdinal { from: 1, to: 0, ordinal: k, delay_ms: d }) });
+                    }
+                }
+            }
+        }
+    }
+    ctx.section = "cancel-during-recovery".into();
     ctx.drive_list(&part, cases, true);
 
     // sampled: general scenarios + a cancel somewhere
